@@ -92,11 +92,13 @@ def schedule_record(slot: int, mask: int, start: int, end: int, enabled: int = 1
     return bytes([slot, enabled, mask, state]) + struct.pack("<I", start) + struct.pack("<I", end) + tail
 
 
-def schedules(records) -> bytes:
+def schedules(records, poke=()) -> bytes:
     b = bytearray(SCHED_PREFIX + b"".join(records) + SCHED_TAIL)
     b[0:2] = b"\xfe\xf0"
     b[2:4] = struct.pack("<H", len(b))
     b[38:40] = b"\xf0\xfe"
+    for off, val in poke:  # header / reserved bytes before the records (offsets < 45)
+        b[off] = val
     return _resign(b)
 
 
